@@ -98,33 +98,46 @@ theorem cut_shape (a b : Arr3) (It It' Il Il' Ix Ix' : List Nat)
       | cons y ys => simp [ih ys (by simpa using h)]
   rw [rep Ix Ix' (XR.fin 0) h3, rep Il Il' _ h2, rep It It' _ h1]
 
-/-- Observations: an input that stores none is given the array of the first input that does. -/
+/-- Observations: an input that stores none is given the array of the first input that does
+(`obsOwner`), cut with THAT input's indices; an input that stores observations uses its own. -/
 theorem C01_obs_borrowed (D : DataS) (arrs : List Arr3) (h : D.loadAll "obs" = .ok arrs) (i : Nat)
-    (hi : i < D.inputs.length) (hno : (D.inputs.getD i default).field? "obs" = none) :
-    ∃ j a, j < D.inputs.length ∧ (D.inputs.getD j default).field? "obs" = some a
-      ∧ arrs[i]? = some (D.cutFor j a) := by
+    (hi : i < D.inputs.length) :
+    arrs[i]? = some (D.cutFor (D.obsOwner i) (((D.inputs.getD (D.obsOwner i) default).field? "obs").getD []))
+    ∧ (((D.inputs.getD i default).field? "obs").isSome = true → D.obsOwner i = i)
+    ∧ (((D.inputs.getD i default).field? "obs").isSome = false →
+        ((D.inputs.getD (D.obsOwner i) default).field? "obs").isSome = true
+        ∧ ∀ j < D.obsOwner i, ((D.inputs.getD j default).field? "obs").isSome = false) := by
   unfold DataS.loadAll at h
   simp only [beq_self_eq_true, if_true] at h
   split at h
-  · simp at h
-  · rename_i firstObs hf
+  · rename_i hany
     injection h with h
     subst h
-    obtain ⟨o, ho, hid⟩ := List.exists_of_findSome?_eq_some hf
-    simp only [List.mem_map, List.mem_range] at ho
-    obtain ⟨j, hj, rfl⟩ := ho
-    cases hfj : (D.inputs.getD j default).field? "obs" with
-    | none =>
-      exfalso
-      have hfj' : (D.inputs[j]?.getD default).field? "obs" = none := by
-        simpa [List.getD_eq_getElem?_getD] using hfj
-      simp [id, hfj'] at hid
-    | some a =>
-      simp only [hfj, Option.map_some, id] at hid
-      refine ⟨j, a, hj, hfj, ?_⟩
-      have hno' : (D.inputs[i]?.getD default).field? "obs" = none := by
-        simpa [List.getD_eq_getElem?_getD] using hno
-      simp [List.getElem?_map, List.getElem?_range hi, hno', ← Option.some.inj hid]
+    refine ⟨by simp [List.getElem?_map, List.getElem?_range hi], ?_, ?_⟩
+    · intro hs; unfold DataS.obsOwner; rw [if_pos hs]
+    · intro hs
+      rw [List.any_eq_true] at hany
+      obtain ⟨j0, hj0, hj0s⟩ := hany
+      have hex : ∃ j, (List.range D.inputs.length).find? (fun j => ((D.inputs.getD j default).field? "obs").isSome) = some j := by
+        cases hf : (List.range D.inputs.length).find? (fun j => ((D.inputs.getD j default).field? "obs").isSome) with
+        | some j => exact ⟨j, rfl⟩
+        | none =>
+          rw [List.find?_eq_none] at hf
+          exact absurd hj0s (hf j0 hj0)
+      obtain ⟨j, hj⟩ := hex
+      have hown : D.obsOwner i = j := by
+        unfold DataS.obsOwner
+        rw [if_neg (by rw [hs]; decide), hj]; rfl
+      rw [hown]
+      refine ⟨by simpa using List.find?_some hj, ?_⟩
+      intro k hk
+      rw [List.find?_eq_some_iff_getElem] at hj
+      obtain ⟨_, m, hm, hmj, hbefore⟩ := hj
+      simp only [List.getElem_range] at hmj
+      subst hmj
+      have := hbefore k hk
+      simpa [List.getElem_range] using this
+  · simp at h
 
 /-- Non-interference: replacing the array of another input by one with the same missing-value
 pattern (i.e. changing only non-missing values into other non-missing values) leaves input `i`'s
